@@ -94,6 +94,15 @@ def check_bound_key_parse(run, tree):
         # a file without the table: no keys
         got2 = ModelEval(tree, fi, {}, dict(hooks, builtins=dict(hooks["builtins"], open=lambda *a, **k: InfoFile(header)))).invoke(fi, [], {"infofile": "INFO", "ncpu": ncpu}, None)
         run.ob(construct + "[no table]", got2 == [], fi.where(), "info file without a DOMAIN table -> %r" % (got2,), "", nontrivial=False)
+        # history: the file behind the same path string now holds another table (another run in the same directory name, a re-run, a relative
+        # path after chdir): the keys are read from the file as it is NOW (module-level state persists across the two calls)
+        rows3 = [Line([Field(("dom", k)), Field(("min2", k)), Field(("max2", k))]) for k in range(ncpu)]
+        lines3 = header + [Line(["DOMAIN", "ind_min", "ind_max"])] + rows3
+        got3 = ModelEval(tree, fi, {}, dict(hooks, builtins=dict(hooks["builtins"], open=lambda *a, **k: InfoFile(lines3)))).invoke(fi, [], {"infofile": "INFO", "ncpu": ncpu}, None)
+        want3 = [("int", ("float", Field(("min2", k)))) for k in range(ncpu)] + [("int", ("float", Field(("max2", ncpu - 1))))]
+        run.ob(construct + "[same path, new contents]", got3 == want3, fi.where(), "second parse of the same path after the file changed: %s" % (
+            "keys of the new table" if got3 == want3 else "%r (required the keys of the new table)" % (got3,)),
+               "the CPU pre-selection of a later load uses the domain decomposition of an earlier output that was reached through the same path string")
     except ERR as e:
         run.unresolved(construct, fi.where(), "cannot fold: %s" % e)
 
